@@ -487,6 +487,9 @@ func c06ResolverKeeps(fn *ssa.Function, queries string) (bool, string) {
 	if esc {
 		return false, "an iteration can finish without answering or re-queueing an uncancelled query: blocks " + blockList(path)
 	}
+	if b := an.LoopEarlyExit(loop); b != nil {
+		return false, "the loop over the pending queries can be left early: remaining queries are neither answered nor kept"
+	}
 	return true, ""
 }
 
